@@ -63,4 +63,13 @@ theorem session_of_rejections_is_noop (s s' : Server) (qs : List Req) (rs : List
 example : ∃ rs, serve [] [{ method := b!"GET", path := b!"/nope", body := .none }] = .ok ([], rs) ∧
     (∀ r ∈ rs, r.status ≥ 300) := ⟨[{ status := 404 }], rfl, by simp⟩
 
+/-- non-vacuity with accepted and rejected requests in one session: create (201), unknown route (404),
+    the same create again (rejected): only the first request survives the erasure -/
+example :
+    let q1 : Req := { method := b!"POST", path := b!"/api/v1/collections", body := .create true b!"c1" b!"cosine" 3 8 }
+    let q2 : Req := { method := b!"GET", path := b!"/nope", body := .none }
+    ∃ s' rs, serve [] [q1, q2, q1] = .ok (s', rs) ∧ rs.map Resp.status = [201, 404, 400] ∧ accepted [q1, q2, q1] rs = [q1] := by
+  intro q1 q2
+  refine ⟨_, _, rfl, ?_, ?_⟩ <;> rfl
+
 end Syzgy.C18
